@@ -20,11 +20,11 @@ theorem length_sSub_add_sAnd (l r : List Nat) : (sSub l r).length + (sAnd l r).l
 
 theorem sAnd_eq_filter (l r : List Nat) (hl : Roaring.Sorted l) (hr : Roaring.Sorted r) :
     sAnd l r = l.filter (fun x => decide (x ∈ r)) := by
-  apply sorted_ext_local _ _ (sorted_sAnd l r hl hr) (List.Pairwise.sublist List.filter_sublist hl)
+  apply Arr.sorted_ext _ _ (sorted_sAnd l r hl hr) (List.Pairwise.sublist List.filter_sublist hl)
   intro x; rw [mem_sAnd l r hl hr]; simp
 
 theorem sAnd_comm (l r : List Nat) (hl : Roaring.Sorted l) (hr : Roaring.Sorted r) : sAnd l r = sAnd r l := by
-  apply sorted_ext_local _ _ (sorted_sAnd l r hl hr) (sorted_sAnd r l hr hl)
+  apply Arr.sorted_ext _ _ (sorted_sAnd l r hl hr) (sorted_sAnd r l hr hl)
   intro x; rw [mem_sAnd l r hl hr, mem_sAnd r l hr hl]; exact And.comm
 
 theorem length_sXor (l r : List Nat) (hl : Roaring.Sorted l) (hr : Roaring.Sorted r) :
@@ -90,7 +90,7 @@ theorem cntL (K : BKernel) (l : Container) (ls bs : Bitmap) (hl : l.store.Inv) (
   have : l.elems.filter (fun y => decide (y ∈ elems bs)) = [] := by
     rw [List.filter_eq_nil_iff]
     intro y hy
-    have := (mem_celems l (Store.elems_lt K _ hl) y).mp hy
+    have := (mem_celems l (Store.elems_ltK K _ hl) y).mp hy
     simpa using not_mem_elems_of_key_lt K bs hbsi l.key y hbs this.1
   rw [this]; simp
 
@@ -122,7 +122,7 @@ theorem cntB (K : BKernel) (l r : Container) (ls rs : Bitmap) (hl : l.store.Inv)
   congr 1
   apply List.filter_congr
   intro i hi
-  have hlt := Store.elems_lt K _ hl i hi
+  have hlt := Store.elems_ltK K _ hl i hi
   have := mem_elems_head K r rs hr hrsi hrs (l.key * 65536 + i)
   have e1 : (l.key * 65536 + i) / 65536 = r.key := by omega
   have e2 : (l.key * 65536 + i) % 65536 = i := by omega
@@ -180,7 +180,7 @@ theorem foldl_len_init (cs : List Container) (n : Nat) :
   | cons x xs ih => simp only [List.foldl_cons]; rw [ih (n + x.len), ih (0 + x.len)]; omega
 
 /-- inherent.rs `len` is the number of elements -/
-theorem len_eq_length (K : BKernel) (b : Bitmap) (hb : StoresInv b) : len b = (elems b).length := by
+theorem len_eq_lengthK (K : BKernel) (b : Bitmap) (hb : StoresInv b) : len b = (elems b).length := by
   unfold len
   induction b with
   | nil => simp [elems]
@@ -193,19 +193,19 @@ theorem len_eq_length (K : BKernel) (b : Bitmap) (hb : StoresInv b) : len b = (e
     rw [Store.length_elems K _ hc]
 
 /-- every element of a well-formed bitmap is a `u32` -/
-theorem elems_lt (K : BKernel) (b : Bitmap) (hb : WF b) : ∀ y ∈ elems b, y < 4294967296 := by
+theorem elems_ltK (K : BKernel) (b : Bitmap) (hb : WF b) : ∀ y ∈ elems b, y < 4294967296 := by
   intro y hy
   simp only [elems, List.mem_flatMap] at hy
   obtain ⟨c, hc, hyc⟩ := hy
   have hci := Store.wf_inv _ (hb.2 c hc).2
-  have := (mem_celems c (Store.elems_lt K _ hci) y).mp hyc
+  have := (mem_celems c (Store.elems_ltK K _ hci) y).mp hyc
   have hk := (hb.2 c hc).1
   have h3 := Nat.mod_lt y (show 65536 > 0 by omega)
   have h1 := Nat.div_add_mod y 65536
   omega
 
 theorem length_elems_le (K : BKernel) (b : Bitmap) (hb : WF b) : (elems b).length ≤ 4294967296 :=
-  sorted_length_le _ _ (sorted_elems K b hb) (elems_lt K b hb)
+  sorted_length_le _ _ (sorted_elemsK K b hb) (elems_ltK K b hb)
 
 end Bitmap
 end Roaring
